@@ -320,6 +320,50 @@ func checkC08(c *Ctx, r *Report) {
 					}
 				})
 			}
+			// net/http sends "User-Agent: Go-http-client/1.1" for a request that has no User-Agent unless the field is
+			// present with an empty value: the proxy must not introduce itself in the client's name
+			isPin := func(in ssa.Instruction) bool {
+				x, ok := in.(*ssa.Call)
+				if !ok || calleeName(x) != "(net/http.Header).Set" {
+					return false
+				}
+				a := callArgs(x)
+				name, isC := constString(a[1])
+				val, isV := constString(a[2])
+				return isC && name == "User-Agent" && isV && val == ""
+			}
+			isDo := func(in ssa.Instruction) bool { return in == call.(ssa.Instruction) }
+			// a test on the presence of User-Agent may bypass the pin on its "present" side: the side from which the
+			// pin cannot be reached any more
+			skipPresent := func(blk *ssa.BasicBlock, si int) bool {
+				iff, ok := blk.Instrs[len(blk.Instrs)-1].(*ssa.If)
+				if !ok {
+					return false
+				}
+				mentions := derivesFrom(iff.Cond, func(v ssa.Value) bool {
+					if k, ok := constString(v); ok && k == "User-Agent" {
+						return true
+					}
+					if lk, ok := v.(*ssa.Lookup); ok { // _, sent := h["User-Agent"]
+						if k, ok := constString(lk.Index); ok && k == "User-Agent" {
+							return true
+						}
+					}
+					return false
+				})
+				if !mentions {
+					return false
+				}
+				return len(walkFrom(pos{blk.Succs[si], 0}, isDo, isPin, nil)) == 0
+			}
+			pinExists := false
+			eachInstr(f, func(in ssa.Instruction) {
+				if isPin(in) {
+					pinExists = true
+				}
+			})
+			noUA := pinExists && len(walkFrom(pos{f.Blocks[0], 0}, isPin, isDo, skipPresent)) == 0
+			r.Check(noUA, "C08.R6", "no default User-Agent is sent in the client's name", c.InstrPos(call), "an absent User-Agent is pinned to the empty value before Do (net/http then sends none)", "a request without a User-Agent leaves the proxy with \"User-Agent: Go-http-client/1.1\": the origin receives a header the client never sent")
 			r.Check(noGzip, "C08.R6", "the upstream transport does not add or undo gzip", c.InstrPos(call), "Transport.DisableCompression = true on the transport in use", "the upstream transport has transparent compression on: for a client that sent no Accept-Encoding it asks the origin for gzip, decodes the body and drops Content-Encoding / Content-Length — the delivered and stored body is not the one the origin's ETag and length describe")
 		})
 	}
@@ -394,6 +438,9 @@ func checkC08(c *Ctx, r *Report) {
 					return
 				}
 				name, isC := constString(args[1])
+				if v, isV := constString(args[2]); isC && name == "User-Agent" && isV && v == "" {
+					return // pins an absent User-Agent to "none" (C08.R6); adds nothing to the request
+				}
 				ok := isC && (name == "If-None-Match" || name == "If-Modified-Since")
 				r.Check(ok, "C08.R4", fnKey(f)+" sets request header "+name, c.InstrPos(x), "stored validator on the revalidation clone", "a request header other than the stored validators is set/overwritten before forwarding")
 				onClone := false
